@@ -1043,6 +1043,15 @@ def _roundtrip_routes(o, case, fl, w, req, m, has_bonds, exp_bonds, decoded):
             same_decoded(o, decoded["cif_ser"], decoded["bcif"], "cif_ser vs bcif")
         if "cif_ser" in decoded and "cif_io" in decoded:
             same_decoded(o, decoded["cif_ser"], decoded["cif_io"], "cif_ser vs cif_io")
+        # writing and reading leave the caller's structure as it was
+        again = build_array(case, fl)
+        same = (
+            arr == again
+            and np.array_equal(np.asarray(arr.coord), np.asarray(again.coord), equal_nan=True)
+            and sorted(arr.get_annotation_categories()) == sorted(again.get_annotation_categories())
+            and all(np.array_equal(arr.get_annotation(k), again.get_annotation(k)) for k in again.get_annotation_categories())
+        )
+        o.check(same, "writing_does_not_modify_arguments", "the structure handed to set_structure() changed")
 
 
 def _report_bond_diff(o, tag, got, want):
